@@ -37,16 +37,39 @@ func regexpFromGlob(pattern string) string {
 	// https://github.com/google/re2/wiki/Syntax
 	// glob (programming) - Wikipedia
 	// https://en.wikipedia.org/wiki/Glob_(programming)
-	repstrs := []struct {
-		old string
-		new string
-	}{
-		{old: "*", new: ".*"},
-		{old: "?", new: "."},
+	var re2Pattern strings.Builder
+	inClass := false
+	escaped := false
+	for _, r := range pattern {
+		switch {
+		case escaped:
+			// A backslash escapes the next character.
+			re2Pattern.WriteString(regexp.QuoteMeta(string(r)))
+			escaped = false
+		case r == '\\':
+			escaped = true
+		case inClass:
+			// Character classes ([abc], [^a], [a-z]) are passed through.
+			re2Pattern.WriteRune(r)
+			if r == ']' {
+				inClass = false
+			}
+		case r == '[':
+			re2Pattern.WriteRune(r)
+			inClass = true
+		case r == '*':
+			re2Pattern.WriteString(".*")
+		case r == '?':
+			re2Pattern.WriteString(".")
+		default:
+			// Every other character, including regular expression
+			// metacharacters, matches only itself.
+			re2Pattern.WriteString(regexp.QuoteMeta(string(r)))
+		}
 	}
-	re2Pattern := pattern
-	for _, repstr := range repstrs {
-		re2Pattern = strings.ReplaceAll(re2Pattern, repstr.old, repstr.new)
+	if escaped {
+		// A trailing backslash matches itself.
+		re2Pattern.WriteString(regexp.QuoteMeta("\\"))
 	}
-	return "^" + re2Pattern + "$"
+	return "(?s)^" + re2Pattern.String() + "$"
 }
